@@ -476,106 +476,91 @@ theorem unmodelled_type_callbacks :
 /-! ## Clause "never a Go panic and never an error reporting an internal panic": the allocation drivers
 
 Three functions turn a number the caller controls into the size of an allocation
-(`Stdlib/d11Alloc.lean`, following the Go control flow with Go's wrapping `int` arithmetic and the
-runtime's `maxAlloc`; tied to the code by the `c11.alloc` correspondence).  For each the full
-statement is FALSE of the code (recorded findings `panic-error:makeslice:…`): kept as a `def`, with
-the strongest `_partial` theorem and a `_counterexample` whose witness is replayed on the real code
-on every run (harness/c11gen.go, `c11AllocWitnesses`). -/
+(`Stdlib/d11Alloc.lean`, following the Go control flow with Go's wrapping `int` arithmetic,
+truncating division and the runtime's `maxAlloc`; tied to the code by the `c11.alloc`
+correspondence).  For each the full statement was FALSE of the code as found (the former
+`_counterexample` theorems of this section: `indent(2^62, s)`, `format("%9223372036854775807s", "a")`,
+seven lists of 512 elements) and is a THEOREM since the repairs /repo d4d90b0, 84cbc5e, 490ecb9,
+which the model follows; the former witnesses are regression cases of the harness
+(harness/c11gen.go, `c11AllocWitnesses`) and of the `example`s below. -/
 
-/-- `indent`: the full statement — FALSE of the code -/
-def IndentPadTotal : Prop := D11.IndentPadTotal
+/-- **`indent` never panics** — for every number of spaces (negative, fractional, infinite, beyond
+the `int` range: ordinary errors), every string length and every number of line breaks -/
+theorem indent_total (spaces : Value) (dataLen lines : Int) (hc : ∀ w, Stdlib.fromCtyInt spaces ≠ .panic w)
+    (hd : 0 ≤ dataLen) (hl : 0 ≤ lines) : (D11.indentPad spaces dataLen lines).isPanic = false :=
+  D11.indentPad_total spaces dataLen lines hc hd hl
 
-/-- `indent` does not panic when the number of spaces is at most `maxAlloc` (2^48) — or is
-negative, fractional, infinite, beyond the `int` range: those are ordinary errors -/
-theorem indent_total_partial (spaces : Value) (hc : ∀ w, Stdlib.fromCtyInt spaces ≠ .panic w)
-    (hk : ∀ k, Stdlib.fromCtyInt spaces = .ok k → k ≤ D11.maxAlloc) : (D11.indentPad spaces).isPanic = false :=
-  D11.indentPad_total_partial spaces hc hk
+/-- when `indent` builds a padding, it is exactly the number of spaces asked for and the whole
+result, `len(data) + lines * spaces` bytes, is within `math.MaxInt32` -/
+theorem indent_ok_bound {spaces : Value} {dataLen lines n : Int} (hd : 0 ≤ dataLen) (hd2 : dataLen ≤ D11.maxInt32)
+    (hl : 0 < lines) (h : D11.indentPad spaces dataLen lines = .ok n) :
+    Stdlib.fromCtyInt spaces = .ok n ∧ 0 ≤ n ∧ dataLen + lines * n ≤ D11.maxInt32 :=
+  D11.indentPad_ok_bound hd hd2 hl h
 
-/-- … and that bound is exact -/
-theorem indent_panics_iff (spaces : Value) (hc : ∀ w, Stdlib.fromCtyInt spaces ≠ .panic w) :
-    (D11.indentPad spaces).isPanic = true ↔ ∃ k, Stdlib.fromCtyInt spaces = .ok k ∧ k > D11.maxAlloc :=
-  D11.indentPad_panics_iff spaces hc
+/-- a string without a line break is returned as it is: no padding is built, whatever the number of spaces -/
+theorem indent_no_newline (spaces : Value) (dataLen k : Int) (hk : Stdlib.fromCtyInt spaces = .ok k) (h0 : 0 ≤ k) :
+    D11.indentPad spaces dataLen 0 = .ok 0 := D11.indentPad_no_newline spaces dataLen k hk h0
 
-/-- the witness `indent(2^62, s)`: the conversion to `int` succeeds, `strings.Repeat` panics -/
-theorem indent_total_counterexample :
-    Stdlib.fromCtyInt D11.indentCex = .ok 4611686018427387904 ∧ (D11.indentPad D11.indentCex).isPanic = true := by
+/-- the former witness `indent(2^62, "a")` and its variant with a line break: fine, resp. an ordinary error -/
+theorem indent_former_counterexample :
+    Stdlib.fromCtyInt D11.indentCex = .ok 4611686018427387904 ∧
+    D11.indentPad D11.indentCex 1 0 = .ok 0 ∧ D11.isErr (D11.indentPad D11.indentCex 3 1) = true := by
   decide
 
-theorem indentPadTotal_false : ¬ IndentPadTotal := fun h => by
-  have := h D11.indentCex (by intro w; rw [indent_total_counterexample.1]; simp)
-  rw [indent_total_counterexample.2] at this
-  cases this
+/-- non-trivial instances -/
+example : D11.indentPad (Value.intVal 300) 3 1 = .ok 300 ∧ D11.indentPad (Value.intVal 2147483644) 3 1 = .ok 2147483644 ∧
+    D11.isErr (D11.indentPad (Value.intVal 2147483645) 3 1) = true := by decide
 
-/-- the side condition of `indent_total_partial` is met by a non-trivial instance -/
-example : (D11.indentPad (Value.intVal 300)).isPanic = false ∧ D11.indentPad (Value.intVal 300) = .ok 300 := by decide
+/-- **`format`: padding never panics**, whatever digits the verb spells -/
+theorem format_pad_total (ds : List Nat) (g : Int) (hg : 0 ≤ g) : (D11.formatPadOfDigits ds g).isPanic = false :=
+  D11.formatPadOfDigits_total ds g hg
 
-/-- `format`: padding never panics — FALSE of the code -/
-def FormatPadTotal : Prop := D11.FormatPadTotal
+/-- **`format`: the scanner reads the width / precision that is written**: a literal up to the
+limit of 10^6 is read exactly … -/
+theorem width_reads_literal (ds : List Nat) (h : D11.litValue ds ≤ D11.formatMaxWidthPrec) :
+    D11.accDigits ds = D11.litValue ds := D11.accDigits_eq_lit ds h
 
-/-- no panic when the scanned width is at most `maxAlloc` (or negative after wrap-around) -/
-theorem format_pad_total_partial (ds : List Nat) (g : Int) (hg : 0 ≤ g) (h : D11.accDigits ds ≤ D11.maxAlloc) :
-    (D11.formatPadOfDigits ds g).isPanic = false := D11.formatPad_total_partial ds g hg h
-
-set_option maxRecDepth 8192 in
-/-- the witness `format("%9223372036854775807s", "a")` -/
-theorem format_pad_total_counterexample : (D11.formatPadOfDigits D11.maxIntDigits 1).isPanic = true := by decide
-
-theorem formatPadTotal_false : ¬ FormatPadTotal := fun h => by
-  have := h D11.maxIntDigits 1 (by omega)
-  rw [format_pad_total_counterexample] at this
-  cases this
-
-/-- `format`: the scanner reads the width / precision that is written — FALSE of the code -/
-def WidthReadsLiteral : Prop := D11.WidthReadsLiteral
-
-/-- … it does for every literal up to the largest `int` -/
-theorem width_reads_literal_partial (ds : List Nat) (h : D11.litValue ds ≤ D11.maxInt64) :
-    D11.accDigits ds = D11.litValue ds := D11.widthReadsLiteral_partial ds h
+/-- … a literal beyond it is an error, never another width: the closed form of the padding -/
+theorem format_pad_closed_form (ds : List Nat) (g : Int) :
+    D11.formatPadOfDigits ds g =
+      if D11.litValue ds > D11.formatMaxWidthPrec then .err "unsupported width" else D11.formatPad (D11.litValue ds) g :=
+  D11.formatPadOfDigits_eq ds g
 
 set_option maxRecDepth 8192 in
-/-- the witness `format("%18446744073709551621s", "a")` pads to 5 -/
-theorem width_reads_literal_counterexample :
-    D11.accDigits D11.wrapDigits = 5 ∧ D11.litValue D11.wrapDigits = 18446744073709551621 := by decide
+/-- the former witnesses `format("%9223372036854775807s", "a")` (panicked) and
+`format("%18446744073709551621s", "a")` (padded to 5): ordinary errors -/
+theorem format_pad_former_counterexamples :
+    D11.isErr (D11.formatPadOfDigits D11.maxIntDigits 1) = true ∧ D11.isErr (D11.formatPadOfDigits D11.wrapDigits 1) = true ∧
+    D11.litValue D11.wrapDigits = 18446744073709551621 := by decide
 
-theorem widthReadsLiteral_false : ¬ WidthReadsLiteral := fun h => by
-  have := h D11.wrapDigits
-  rw [width_reads_literal_counterexample.1, width_reads_literal_counterexample.2] at this
-  cases this
+example : D11.formatPadOfDigits [1, 0] 3 = .ok 7 ∧ D11.formatPadOfDigits [1, 0, 0, 0, 0, 0, 0] 0 = .ok 1000000 ∧
+    D11.isErr (D11.formatPadOfDigits [1, 0, 0, 0, 0, 0, 1] 0) = true := by decide
 
-/-- `setproduct`: the allocation never panics — FALSE of the code -/
-def SetProductAllocTotal : Prop := D11.SetProductAllocTotal
+/-- **`setproduct`: the allocation never panics**, whatever the lengths of the arguments -/
+theorem setproduct_alloc_total (ls : List Int) (hl : ∀ l ∈ ls, 0 ≤ l) : (D11.setProductAlloc ls).isPanic = false :=
+  D11.setProductAlloc_total ls hl
 
-/-- no panic when every argument is non-empty, the product of the lengths is at most 2^30 and
-there are at most 2^10 arguments (the loop then computes the true product) -/
-theorem setproduct_alloc_total_partial (ls : List Int) (hl : ∀ l ∈ ls, 1 ≤ l)
-    (hp : D11.prodLen ls ≤ 1073741824) (hn : (ls.length : Int) ≤ 1024) :
-    (D11.setProductAlloc ls).isPanic = false := D11.setProductAlloc_total_partial ls hl hp hn
+/-- **`setproduct` answers a number of tuples only if it is the true product of the lengths**
+(every argument non-empty): no wrap-around to an empty or short result -/
+theorem setproduct_ok_is_product (ls : List Int) (hl : ∀ l ∈ ls, 1 ≤ l) (n : Int) (h : D11.setProductAlloc ls = .ok n) :
+    n = D11.prodLen ls := D11.setProductAlloc_ok_is_product ls hl n h
 
-/-- the witnesses: seven lists of 512 elements (2^63 wraps to a negative `int`), six of 1024 (2^60) -/
-theorem setproduct_alloc_total_counterexample :
-    (D11.setProductAlloc [512, 512, 512, 512, 512, 512, 512]).isPanic = true ∧
-    (D11.setProductAlloc [1024, 1024, 1024, 1024, 1024, 1024]).isPanic = true := by decide
+/-- … in particular the result is empty only if some argument is -/
+theorem setproduct_nonempty (ls : List Int) (hl : ∀ l ∈ ls, 1 ≤ l) : D11.setProductAlloc ls ≠ .ok 0 := fun h => by
+  have h1 := D11.setProductAlloc_ok_is_product ls hl 0 h
+  have h2 : 1 ≤ D11.prodLen ls := D11.le_prodFold ls 1 (by omega) hl
+  omega
 
-theorem setProductAllocTotal_false : ¬ SetProductAllocTotal := fun h => by
-  have := h [512, 512, 512, 512, 512, 512, 512] (by decide)
-  rw [setproduct_alloc_total_counterexample.1] at this
-  cases this
+/-- the former witnesses: seven lists of 512 elements (2^63), six of 1024 (2^60) — both panicked —
+and eight of 256 (2^64 wrapped to 0: a silently EMPTY result): ordinary errors -/
+theorem setproduct_former_counterexamples :
+    D11.isErr (D11.setProductAlloc [512, 512, 512, 512, 512, 512, 512]) = true ∧
+    D11.isErr (D11.setProductAlloc [1024, 1024, 1024, 1024, 1024, 1024]) = true ∧
+    D11.isErr (D11.setProductAlloc [256, 256, 256, 256, 256, 256, 256, 256]) = true := by decide
 
-example : D11.setProductAlloc [2, 3] = .ok 6 := by decide
-
-/-- `setproduct` answers the empty collection only if an argument is empty — FALSE of the code
-(a wrong RESULT, not a panic: eight lists of 256 elements multiply to 2^64 = 0) -/
-def SetProductEmptyOnlyIfSomeEmpty : Prop := D11.SetProductEmptyOnlyIfSomeEmpty
-
-theorem setproduct_nonempty_partial (ls : List Int) (hl : ∀ l ∈ ls, 1 ≤ l) (h : D11.prodLen ls ≤ D11.maxInt64) :
-    D11.totalLen ls ≠ 0 := D11.setProduct_nonempty_partial ls hl h
-
-theorem setproduct_nonempty_counterexample :
-    D11.totalLen [256, 256, 256, 256, 256, 256, 256, 256] = 0 ∧
-    D11.setProductAlloc [256, 256, 256, 256, 256, 256, 256, 256] = .ok 0 := by decide
-
-theorem setProductEmptyOnlyIfSomeEmpty_false : ¬ SetProductEmptyOnlyIfSomeEmpty := fun h =>
-  h [256, 256, 256, 256, 256, 256, 256, 256] (by decide) setproduct_nonempty_counterexample.1
+example : D11.setProductAlloc [2, 3] = .ok 6 ∧ D11.setProductAlloc [5, 0, 7] = .ok 0 ∧
+    D11.setProductAlloc [32768, 16384] = .ok 536870912 ∧ D11.isErr (D11.setProductAlloc [32768, 32768]) = true ∧
+    D11.setProductAlloc [1024, 1024, 1024, 1024, 1024, 1024, 0] = .ok 0 := by decide
 
 
 /-! ## Clause "never a Go panic and never an error reporting an internal panic", per function
